@@ -105,11 +105,14 @@ def run(chk, repo):
     chk.attempt(blank_never_raises, chk, repo, L, P, nullable)
     chk.attempt(blank_chains, chk, repo, L)
     # ---------------------------------------------------------------- P3
-    try:
-        for cls in ("AsciiInteger", "AsciiFloat", "PaddedString", "StripNullBytes", "AsciiComplex"):
-            check_adapter(chk, "C20-P3v", repo, L.ev, (DATATYPES, cls), blank_rule="C20-P3")
-    finally:
-        _drop_value_rules(chk)
+    def p3(chk, repo, L):
+        # form rule on the adapters' `_decode` bodies; what each codec chain gives on the all-blank field is decided by evaluation (C20-P5)
+        try:
+            for cls in ("AsciiInteger", "AsciiFloat", "PaddedString", "StripNullBytes", "AsciiComplex"):
+                check_adapter(chk, "C20-P3v", repo, L.ev, (DATATYPES, cls), blank_rule="C20-P3")
+        finally:
+            _drop_value_rules(chk)
+    chk.attempt(p3, chk, repo, L, covered_by="blank_chains", rules=("C20-P3",))
 
 
 def blank_chains(chk, repo, L):
@@ -124,7 +127,8 @@ def blank_chains(chk, repo, L):
     chains = {}
     for key in ("leader", "volume", "signal", "processed", "image_descriptor"):
         for lf in L.by_name(key).values():
-            if lf.kind != "field" or lf.base != "PaddedString":
+            reader = lf.base == "Bytes" and lf.chain and (lf.chain[-1].get("raw_attrs") or {}).get("__width_param__") is not None
+            if lf.kind != "field" or not (lf.base == "PaddedString" or reader):
                 continue
             sig = tuple((a.get("cls"), tuple(sorted((k, repr(v)) for k, v in (a.get("attrs") or {}).items()))) for a in lf.chain)
             chains.setdefault(sig, (lf, key))
@@ -140,6 +144,8 @@ def blank_chains(chk, repo, L):
     for sig, (lf, key) in sorted(chains.items(), key=lambda kv: repr(kv[0])):
         width = lf.width.value() if lf.width.is_const() else 8
         val = Const(" " * max(int(width), 1))  # what construct's PaddedString hands to the innermost adapter
+        if lf.base == "Bytes":
+            val = Const(b" " * max(int(width), 1))  # a reader class of the package takes the field's bytes from the stream itself
         where = f"{key}:{lf.name}"
         desc = " <- ".join(a.get("cls") or "?" for a in lf.chain) or "PaddedString"
         try:
@@ -172,7 +178,8 @@ def blank_chains(chk, repo, L):
                                 I.exec_stmt(st, sc, [])
                             except (ShapeError, _Raise):
                                 pass
-                val = I.call(I.getattr(obj, "_decode"), [val, Const(None), Const(None)], {})
+                from .adapter_eval import decode_callable
+                val = decode_callable(I, repo, a, obj)(val)
         except _Raise as e:
             chk.fail("C20-P5", where, f"codec chain {desc}: an all-blank field raises ({e.what[:70]}) instead of decoding to its sentinel - a blank value field makes the whole file unreadable",
                      key=f"blank-chain:{desc}:raises")
